@@ -16,7 +16,8 @@
 
 use crate::address;
 use crate::error::Error;
-use crate::grin_core::core::{amount_to_hr_string, FeeFields};
+use crate::grin_core::core::{amount_to_hr_string, transaction, FeeFields, Transaction};
+use crate::grin_core::global;
 use crate::grin_core::libtx::{
 	build,
 	proof::{ProofBuild, ProofBuilder},
@@ -378,7 +379,7 @@ where
 	K: Keychain + 'a,
 	B: ProofBuild,
 {
-	let (coins, _total, amount, fee) = select_coins_and_fee(
+	let (coins, total, amount, fee) = select_coins_and_fee(
 		wallet,
 		amount,
 		amount_includes_fee,
@@ -390,8 +391,21 @@ where
 		&parent_key_id,
 	)?;
 
-	// The payment can only be made if a kernel can carry the fee (at most 2^40 - 1)
+	// The payment can only be made if a kernel can carry the fee and if the transaction (these
+	// inputs, the change outputs plus the recipient's output, one kernel) stays within the
+	// maximum weight. Say so now, rather than when the finished transaction fails validation
+	// with its inputs already reserved.
 	FeeFields::new(0, fee)?;
+	let num_change_outputs = if total > amount.saturating_add(fee) {
+		change_outputs
+	} else {
+		0
+	};
+	if Transaction::weight_by_iok(coins.len() as u64, num_change_outputs as u64 + 1, 1)
+		> global::max_tx_weight()
+	{
+		return Err(Error::Transaction(transaction::Error::TooHeavy));
+	}
 
 	// build transaction skeleton with inputs and change
 	let (parts, change_amounts_derivations) = inputs_and_change(
